@@ -161,6 +161,8 @@ class Info:
         self.nested_dropped = False  # a chain defines a nested block that is never met
         self.shared_names = False  # >= 2 templates of one chain define the same name
         self.required_unreached = False  # chosen definition is `required` but never met
+        self.required_unreached_names: set[str] = set()
+        self.rendered_defs: set[tuple[str, str]] = set()  # (template, block name) whose body was rendered
         self.dup_standalone = False  # duplicate names in a template rendered without extends
         self.partials: list[str] = []  # "inc"/"ren" executed, in order
         self.chains = 0  # number of chains (extends) resolved
@@ -197,6 +199,7 @@ class Resolver:
         if key in self.active:
             raise RefError("recursive", what)
         self.active.add(key)
+        self.info.rendered_defs.add(tuple(what.split(":", 1)))  # type: ignore[arg-type]
         return key
 
     # -- loading = parsing: a mismatched endblock name is an error of the whole template
@@ -226,6 +229,7 @@ class Resolver:
                 for b in blocks:
                     if b[2] and b[1] not in chain.reached:
                         self.info.required_unreached = True
+                        self.info.required_unreached_names.add(b[1])
                 return out
             return self.render_chain(name, tmpl, scope)
         finally:
@@ -265,6 +269,7 @@ class Resolver:
             if bname not in chain.reached:
                 if defs[0].node[2]:
                     self.info.required_unreached = True
+                    self.info.required_unreached_names.add(bname)
                 if bname in nested_names:
                     self.info.nested_dropped = True
         return out
